@@ -21,7 +21,8 @@
 From PV Require Import Lib.Bytes Model.Redundant Model.RedundantPaths Model.RedundantCond Spec.MakeEval Spec.VerdictSound
   Spec.PathDenote Spec.SpellingIndep
   Proofs.RedundantRefuted Proofs.RedundantSound Proofs.RedundantReads Proofs.RedundantTotal
-  Proofs.RedundantPaths Proofs.RedundantCond Proofs.RedundantCondSim.
+  Proofs.RedundantPaths Proofs.RedundantCond Proofs.RedundantCondSim
+  Spec.VerdictSound2 Proofs.RedundantSound2.
 
 Definition C17_verdict_sound_full : Prop :=
   forall (p : program) (vs : list verdict) (vd : verdict),
@@ -242,3 +243,38 @@ Theorem C17_verdict_sound_cond_partial :
     guard (map snd p) vd = true -> deletable (map snd p) (vd_flagged vd).
 Proof. exact verdict_sound_cond_total. Qed.
 Print Assumptions C17_verdict_sound_cond_partial.
+
+(* ----- round 5: ':=' / '!=' lines with a '$' between the two lines ----- *)
+
+(* The guard of C17_verdict_sound_partial with its second conjunct weakened.  An
+   EARLIER line lo is flagged because of the later line hi (variable x): every
+   ':=' / '!=' whose text contains a '$' among the lines lo+1 .. hi (hi included)
+   does not reach x, where "reach" is read off the program text -- z refers to w
+   when some assignment to z in the lines BEFORE the line in question has ${w} in
+   its text; [reaches pre ws x] closes the variables ws of the line's text under
+   this relation and looks for x (Spec/VerdictSound2.v, executable).  The first
+   conjunct (later line flagged) is unchanged. *)
+Theorem C17_verdict_sound_partial2 :
+  forall (p : program) (vs : list verdict) (vd : verdict),
+    wf_program p = true -> check p = Ok vs -> In vd vs ->
+    (if Nat.ltb (vd_flagged vd) (vd_because vd) then
+       indep_lines (line_var p (vd_flagged vd)) (firstn (S (vd_flagged vd)) p)
+                   (firstn (vd_because vd - vd_flagged vd) (skipn (S (vd_flagged vd)) p))
+     else
+       match line_op p (vd_flagged vd) with
+       | Some OpDefault => true
+       | _ => negb (after_eval_ref (writes_of (line_var p (vd_flagged vd)) 0 (firstn (vd_flagged vd) p)))
+       end) = true ->
+    deletable p (vd_flagged vd).
+Proof. exact verdict_sound_partial2. Qed.
+Print Assumptions C17_verdict_sound_partial2.
+
+(* VA= a / VC= c / VB:= ${VC} / VA= b: the verdict "line 1 is overwritten in line
+   4" is outside the old guard and inside the new one. *)
+Theorem C17_partial2_covers_more :
+  wf_program prog_between = true /\
+  check prog_between = Ok [mkVerdict 0 3 KOverwritten] /\
+  guard prog_between (mkVerdict 0 3 KOverwritten) = false /\
+  guard2 prog_between (mkVerdict 0 3 KOverwritten) = true.
+Proof. exact prog_between_facts. Qed.
+Print Assumptions C17_partial2_covers_more.
